@@ -1,0 +1,45 @@
+//go:build verif
+// +build verif
+
+// Verification hook (property C13): exported driver for the unexported groupNodeInfo, the node's
+// own distributed key generation code. Add-only; compiled only with -tags verif.
+package group_create
+
+import (
+	"com.tuntun.rangers/node/src/common"
+	"com.tuntun.rangers/node/src/consensus/groupsig"
+	"com.tuntun.rangers/node/src/consensus/model"
+	"com.tuntun.rangers/node/src/middleware/log"
+)
+
+type VerifDKGNode struct{ n *groupNodeInfo }
+
+// VerifDKGInit gives the package logger a value (handleSharePiece logs).
+func VerifDKGInit() {
+	if groupCreateLogger == nil {
+		groupCreateLogger = log.GetLoggerByIndex(log.GroupCreateLogConfig, "0")
+	}
+}
+
+func VerifDKGNew(mi *model.SelfMinerInfo, groupHash common.Hash, memberNum int) *VerifDKGNode {
+	return &VerifDKGNode{NewGroupNodeInfo(mi, groupHash, memberNum)}
+}
+
+func (v *VerifDKGNode) Threshold() int { return v.n.threshold() }
+
+// Coefficients returns the dealer polynomial (genSecKeyList(threshold())).
+func (v *VerifDKGNode) Coefficients() []groupsig.Seckey { return v.n.genSecKeyList(v.n.threshold()) }
+
+func (v *VerifDKGNode) GenSharePiece(mems []groupsig.ID) map[string]groupsig.Seckey {
+	return v.n.genSharePiece(mems)
+}
+
+func (v *VerifDKGNode) SeedPubKey() groupsig.Pubkey { return v.n.getSeedPubKey() }
+
+func (v *VerifDKGNode) HandleSharePiece(id groupsig.ID, share *model.SharePiece) int {
+	return v.n.handleSharePiece(id, share)
+}
+
+func (v *VerifDKGNode) SignSecKey() groupsig.Seckey { return v.n.getSignSecKey() }
+
+func (v *VerifDKGNode) GroupPubKey() groupsig.Pubkey { return v.n.getGroupPubKey() }
